@@ -69,6 +69,7 @@ class Sched:
         self.steps = 0
         self.switches = 0
         self.preemptions = 0
+        self.counters = collections.Counter()   # reach probes (never influence a choice)
         self.timers_fired = 0
         self.early_timers = 0
         self.step_cap = step_cap
@@ -93,6 +94,7 @@ class Sched:
         self._pct_points = None
         self._pct_prio = {}
         self.hot_p = 0.0
+        self.suspended = False      # a long-lived process between two commands: nobody of it runs
         main = Task(0, 'main')
         main.thread = threading.current_thread()
         self.tasks.append(main)
@@ -113,6 +115,8 @@ class Sched:
 
     # ---- task management
     def cur(self):
+        if self.suspended:
+            return None
         return self.by_thread.get(threading.get_ident())
 
     def spawn(self, fn, name):
@@ -369,7 +373,8 @@ class Sched:
     def stats(self):
         return dict(steps=self.steps, switches=self.switches, preemptions=self.preemptions,
                     timers=self.timers_fired, early_timers=self.early_timers,
-                    tasks=len(self.tasks), sim_s=round(self.now - self.start_time, 6))
+                    tasks=len(self.tasks), sim_s=round(self.now - self.start_time, 6),
+                    counters=dict(self.counters))
 
 
 def _never():
@@ -388,6 +393,8 @@ class SimLock:
                 self.owner = self.s.cur() or True
                 return True
             return False
+        if self.owner is not None:
+            self.s.counters['lock_contended'] += 1
         self.s.block_until(lambda: self.owner is None, what='lock')
         self.owner = self.s.cur() or True
         return True
@@ -448,10 +455,13 @@ class SimQueue:
         return r
 
     def put(self, item, block=True, timeout=None):
+        if self.maxsize and len(self.q) >= self.maxsize:
+            self.s.counters['queue_full'] += 1
         ok = self.s.block_until(lambda: not self.maxsize or len(self.q) < self.maxsize,
                                 timeout, what='queue.put')
         if not ok:
             self.full_hits += 1
+            self.s.counters['queue_put_timeout'] += 1
             raise _queue.Full
         self.q.append(item)
 
@@ -462,6 +472,7 @@ class SimQueue:
 
     def get_nowait(self):
         if not self.q:
+            self.s.counters['queue_get_timeout'] += 1
             raise _queue.Empty
         return self.q.popleft()
 
@@ -469,6 +480,7 @@ class SimQueue:
         if not block:
             return self.get_nowait()
         if not self.s.block_until(lambda: bool(self.q), timeout, what='queue.get'):
+            self.s.counters['queue_get_timeout'] += 1
             raise _queue.Empty
         return self.q.popleft()
 
@@ -508,8 +520,11 @@ class SimExecutor:
         self.pending = collections.deque()
         self.n = 0
         self.max_active = 0
+        self._shutdown = False
 
     def submit(self, fn, *a, **k):
+        if self._shutdown:
+            raise RuntimeError('cannot schedule new futures after shutdown')
         f = SimFuture()
         f._s = self.s
         self.pending.append((f, fn, a, k))
@@ -539,8 +554,23 @@ class SimExecutor:
         finally:
             self.active -= 1
 
-    def shutdown(self, wait=True, **k):
-        pass
+    def shutdown(self, wait=True, *, cancel_futures=False):
+        # as concurrent.futures.ThreadPoolExecutor: no new work, queued work still runs (unless
+        # cancelled), and wait=True joins the worker threads on the calling thread
+        self._shutdown = True
+        if cancel_futures:
+            while self.pending:
+                f = self.pending.popleft()[0]
+                f.cancel()
+        if wait and self.s.cur() is not None:
+            self.s.block_until(lambda: self.active == 0, what='executor.shutdown')
+
+    def __enter__(self):
+        return self
+
+    def __exit__(self, *a):
+        self.shutdown(wait=True)
+        return False
 
 
 def sim_as_completed(s):
